@@ -173,6 +173,18 @@ Proof. split; [vm_compute; reflexivity|]. apply nodupb_NoDup_pairs. vm_compute. 
 Definition ex_tts (u v : node) (_ : nat) : bool := negb ((N.eqb u 0 && N.eqb v 2) || (N.eqb u 2 && N.eqb v 0)).
 Example C12_ex_sym : sym_graphb ex_g = true /\ (forall u v, ex_tts u v O = ex_tts v u O).
 Proof. split; [vm_compute; reflexivity|]. intros u v. unfold ex_tts. rewrite orb_comm. rewrite (andb_comm (N.eqb u 2)), (andb_comm (N.eqb u 0)). reflexivity. Qed.
+(* with full data the default rule draws more (the second test of an already infected target and
+   random.choice): the discrete simulators are not flag-independent (used by C18) *)
+Definition tri_adj (u : node) : list node :=
+  match u with 0%N => [1; 2]%N | 1%N => [0; 2]%N | 2%N => [0; 1]%N | _ => [] end.
+Definition tri : graph := mkGraph [0; 1; 2]%N tri_adj tri_adj false (fun _ _ => 1) (fun _ => 1) false false.
+Example C12_ex_flag_dep :
+  let ds := [1 # 4; 1 # 4; 0] in
+  let runf (full : bool) := run (basic_discrete_SIR tri (1 # 2) (fun _ l => l) (Some [0; 1]%N) None None 0 None full 5) ds in
+  length (snd (runf false)) = 1%nat /\ length (snd (runf true)) = 3%nat /\
+  (exists o, fst (runf false) = Ok o) /\ (exists o, fst (runf true) = Ok o).
+Proof. cbv zeta. split; [vm_compute; reflexivity|]. split; [vm_compute; reflexivity|]. split; eexists; vm_compute; reflexivity. Qed.
+Print Assumptions C12_ex_flag_dep.
 Print Assumptions C12_ex_sym.
 Print Assumptions C12_ex_wf.
 Print Assumptions C12_ex_ord.
